@@ -109,38 +109,45 @@ Definition doc_pctdiff (x y t : Q) : tv := of_bool (negb (Qle_bool t (Qabs (x - 
 Definition doc_null (vl vr : val) : bool := is_null vl || is_null vr.
 
 (* ------------------------------------------------------------------ executable leaf functions *)
-(* Levenshtein distance, row-by-row dynamic programme over lists (unit costs) *)
+(* Levenshtein distance (unit costs).
+   lev_spec: the textbook recursive definition (exponential), the specification.
+   lev_list: row-by-row dynamic programme; the row for a suffix u of s holds lev(u, v) for every suffix v of t
+   (longest suffix first); proved equal to lev_spec for ALL lists (Proofs/LevelsP.v lev_list_spec). *)
 Section Lev.
   Context {A : Type} (eqA : A -> A -> bool).
-  Fixpoint lev_step (c : A) (t : list A) (prev : list nat) (left : nat) : list nat :=
+  Definition sub_cost (a b : A) : nat := if eqA a b then 0 else 1.
+
+  Fixpoint lev_spec (s t : list A) : nat :=
+    match s with
+    | [] => length t
+    | a :: s' =>
+      (fix inner (t : list A) : nat :=
+         match t with
+         | [] => S (length s')
+         | b :: t' => Nat.min (Nat.min (S (lev_spec s' t)) (S (inner t'))) (lev_spec s' t' + sub_cost a b)
+         end) t
+    end.
+
+  (* distances of the empty string to every suffix of t: [|t|; ..; 1; 0] *)
+  Fixpoint lev_base (t : list A) : list nat :=
+    match t with
+    | [] => [0]
+    | _ :: t' => S (length t') :: lev_base t'
+    end.
+  (* prev = row of u (aligned with the suffixes of t); result = row of c :: u *)
+  Fixpoint lev_row (c : A) (t : list A) (prev : list nat) : list nat :=
     match t, prev with
-    | tc :: t', diag :: ((up :: _) as prev') =>
-      let v := Nat.min (Nat.min (S up) (S left)) (diag + if eqA c tc then 0 else 1) in
-      v :: lev_step c t' prev' v
+    | tj :: t', wj :: prev' =>
+      let rest := lev_row c t' prev' in
+      match rest, prev' with
+      | r :: _, wj1 :: _ => Nat.min (Nat.min (S wj) (S r)) (wj1 + sub_cost c tj) :: rest
+      | _, _ => []
+      end
+    | [], wlast :: _ => [S wlast]
     | _, _ => []
     end.
-  Definition lev_row (t : list A) (prev : list nat) (c : A) : list nat :=
-    match prev with
-    | d0 :: _ => S d0 :: lev_step c t prev (S d0)
-    | [] => []
-    end.
-  Definition lev_list (s t : list A) : nat :=
-    last (fold_left (lev_row t) s (seq 0 (S (length t)))) 0.
-
-  (* the textbook recursive definition (exponential; specification of lev_list) *)
-  Fixpoint lev_spec_fuel (fuel : nat) (s t : list A) : nat :=
-    match fuel with
-    | O => 0
-    | S k =>
-      match s, t with
-      | [], _ => length t
-      | _, [] => length s
-      | a :: s', b :: t' =>
-        Nat.min (Nat.min (S (lev_spec_fuel k s' t)) (S (lev_spec_fuel k s t')))
-                (lev_spec_fuel k s' t' + if eqA a b then 0 else 1)
-      end
-    end.
-  Definition lev_spec (s t : list A) : nat := lev_spec_fuel (S (length s + length t)) s t.
+  Definition lev_rows (s t : list A) : list nat := fold_right (fun c row => lev_row c t row) (lev_base t) s.
+  Definition lev_list (s t : list A) : nat := hd 0 (lev_rows s t).
 End Lev.
 
 Definition lev (a b : string) : nat :=
@@ -395,7 +402,7 @@ Fixpoint null_shape (e : expr) : bool :=
   end.
 
 Definition is_else (l : lvl) : bool := match l_cond l with None => true | Some _ => false end.
-Definition levels_ok (ls : list lvl) : bool :=
+Definition levels_ok0 (ls : list lvl) : bool :=
   match ls with
   | [] => false
   | first :: rest =>
@@ -408,6 +415,68 @@ Definition levels_ok (ls : list lvl) : bool :=
        end
     && ordered_ok ls
   end.
+
+(* the null level is a combination (AND / OR) of units `x_l IS NULL OR x_r IS NULL` over the SAME expression on the left and the
+   right record, and every column it tests is used by a later level: rejects `l IS NULL AND r IS NULL`, units whose two sides
+   differ, and a null test on a column the comparison does not compare *)
+Fixpoint set_side (sd : bool) (e : expr) : expr :=
+  match e with
+  | ECol _ c => ECol sd c
+  | ELit v => ELit v
+  | ECmp op a b => ECmp op (set_side sd a) (set_side sd b)
+  | EAnd a b => EAnd (set_side sd a) (set_side sd b)
+  | EOr a b => EOr (set_side sd a) (set_side sd b)
+  | ENot a => ENot (set_side sd a)
+  | EIsNull a => EIsNull (set_side sd a)
+  | EAbs a => EAbs (set_side sd a)
+  | EArith op a b => EArith op (set_side sd a) (set_side sd b)
+  | ECase ws d => ECase (map (fun cv => match cv with (c, v) => (set_side sd c, set_side sd v) end) ws) (set_side sd d)
+  | EFn f args => EFn f (map (set_side sd) args)
+  | ECast a ty => ECast (set_side sd a) ty
+  | EParen a => EParen (set_side sd a)
+  | EPairwise m f a b => EPairwise m f (set_side sd a) (set_side sd b)
+  end.
+Fixpoint col_names (e : expr) : list string :=
+  match e with
+  | ECol _ c => [c]
+  | ELit _ => []
+  | ECmp _ a b | EAnd a b | EOr a b | EArith _ a b | EPairwise _ _ a b => (col_names a ++ col_names b)%list
+  | ENot a | EIsNull a | EAbs a | ECast a _ | EParen a => col_names a
+  | ECase ws d => (flat_map (fun cv => match cv with (c, v) => (col_names c ++ col_names v)%list end) ws ++ col_names d)%list
+  | EFn _ args => flat_map col_names args
+  end.
+Definition isnull_arg (e : expr) : option expr := match e with EIsNull a => Some a | _ => None end.
+Definition comb {A} (x y : option (list A)) : option (list A) :=
+  match x, y with Some a, Some b => Some (a ++ b)%list | _, _ => None end.
+Fixpoint null_units (e : expr) : option (list (expr * expr)) :=
+  match e with
+  | EParen a => null_units a
+  | EOr a b =>
+    match isnull_arg a, isnull_arg b with
+    | Some x, Some y => Some [(strip x, strip y)]
+    | _, _ => comb (null_units a) (null_units b)
+    end
+  | EAnd a b => comb (null_units a) (null_units b)
+  | _ => None
+  end.
+Definition unit_ok (later_cols : list string) (u : expr * expr) : bool :=
+  expr_eqb (set_side true (fst u)) (fst u) && expr_eqb (set_side false (fst u)) (snd u)
+  && negb (match col_names (fst u) with [] => true | _ => false end)
+  && forallb (fun c => existsb (String.eqb c) later_cols) (col_names (fst u)).
+Definition null_level_ok (ls : list lvl) : bool :=
+  match ls with
+  | first :: rest =>
+    match l_cond first with
+    | Some e =>
+      match null_units e with
+      | Some us => negb (match us with [] => true | _ => false end) && forallb (unit_ok (flat_map col_names (conds rest))) us
+      | None => false
+      end
+    | None => false
+    end
+  | [] => false
+  end.
+Definition levels_ok (ls : list lvl) : bool := levels_ok0 ls && null_level_ok ls.
 
 (* the CASE expression of a comparison (Comparison._case_statement): conditions in order, the
    null level mapped to -1, the others to n-1 .. 1, ELSE 0 *)
